@@ -68,8 +68,8 @@ CLAIMED['C15'] = (
     'lists and checked with symbolic group size (0..3 / 0..4), value kind, scalar and List[int] (len <=4 / <=5): scalar '
     'reaches every member, a sequence of group length is assigned element-wise, any other length raises ValueError and '
     'changes nothing, the getter returns the members\' values in order, and every documented attribute has a working '
-    'setter bound to its own name. Further contracts: index / slice / unique-name lookup, parent is the group, foreign '
-    'observer types rejected, observe() observes each member once. "Confirmed over all paths" is required.',
+    'setter bound to its own name. Further contracts: index / slice / unique-name lookup, parent is the group, observers of '
+    'another group\'s type and non-observers rejected by add_observer, the constructor and the observers setter, observe() observes each member once. "Confirmed over all paths" is required.',
     'members are Python subclasses of the real raysect observers with the broadcast attributes shadowed by plain storage; '
     'classes x attributes enumerated from the code (stated), sizes and values decided by CrossHair/z3; BolometerCamera '
     '(no broadcast attributes, needs full foil/slit geometry) and the ndarray value kind are outside the claim.',
@@ -114,7 +114,7 @@ CLAIMED['C06'] = (
     'keys: element symbols, transition levels and the repository path are z3 strings (carried through the real string '
     'formatting code as marker strings), charges / metastables z3 integers, tables opaque tagged values. File and JSON-key '
     'lookups are decided by the solver on the location terms (z3, cvc5 as second solver). Proved per family: read-back of '
-    'what was written; last write wins with keys compared by lower-cased form; a key differing in any one component is '
+    'what was written; last write wins with keys compared by lower-cased form; a key differing in any one component (an isotope vs. its parent element included) is '
     'never found and writing it leaves the first key untouched; reading through any other family raises RuntimeError; with '
     'two unconstrained keys a read succeeds only if all components are equal; every written path has the passed '
     'repository path as prefix (None -> default); an update rejected for an invalid charge writes nothing. The 11 '
